@@ -24,10 +24,10 @@ func c05Alphabet() []fsx.Op {
 		{K: "RENAME", H: "root/d", N: "a", H2: "root", N2: "a"}, // file over file
 		{K: "RENAME", H: "root", N: "d", H2: "root", N2: "d2"},
 		{K: "MKDIR", H: "root", N: "d2"},
-		{K: "RENAME", H: "root", N: "d", H2: "root", N2: "d2", As: "x"}, // directory over empty directory (if d2 is empty)
-		{K: "CREATE", H: "root", N: nameOfLen(200, 'z')},              // refused
-		{K: "MKDIR", H: "root", N: nameOfLen(200, 'y')},               // refused after a block for ./.. was allocated
-		{K: "SYMLINK", H: "root", N: nameOfLen(200, 'x'), Target: "t"}, // refused after the target block was allocated
+		{K: "RENAME", H: "root", N: "d", H2: "root", N2: "d2", As: "x"},       // directory over empty directory (if d2 is empty)
+		{K: "CREATE", H: "root", N: nameOfLen(200, 'z')},                      // refused
+		{K: "MKDIR", H: "root", N: nameOfLen(200, 'y')},                       // refused after a block for ./.. was allocated
+		{K: "SYMLINK", H: "root", N: nameOfLen(200, 'x'), Target: "t"},        // refused after the target block was allocated
 		{K: "RENAME", H: "root", N: "a", H2: "root", N2: nameOfLen(200, 'z')}, // refused after lookup
 		{K: "REMOVE", H: "root", N: "a"}, {K: "REMOVE", H: "root/d", N: "a"}, {K: "REMOVE", H: "root/d/e", N: "x"}, {K: "RMDIR", H: "root/d", N: "e"}, {K: "RMDIR", H: "root", N: "d"}, {K: "REMOVE", H: "root", N: "s"},
 		{K: "RESTART"},
